@@ -2740,6 +2740,27 @@ def _single_use_test_temp(stmts, loads=None):
 
 
 _SENTINELS = set()
+_SENT_LEAKY = set()  # markers that functions of the module hand back: a call of package code may evaluate to one
+_EXTERNAL_ROOTS = frozenset("functools os re posixpath time stat codecs io operator itertools collections getattr str int list dict set tuple bool len type repr sorted frozenset bytes".split())
+
+
+def _cannot_be_marker(e):
+    """can the value of e be a private marker object that is only ever bound to plain names, returned and compared?  Not if e makes
+    a new object, reads an attribute / item (markers are never stored there) or calls code outside the package without passing it"""
+    if isinstance(e, (ast.Constant, ast.JoinedStr, ast.Tuple, ast.List, ast.Dict, ast.Set, ast.BinOp, ast.Compare, ast.Attribute, ast.Subscript, ast.ListComp, ast.DictComp, ast.SetComp, ast.GeneratorExp)):
+        return True
+    if isinstance(e, ast.UnaryOp):
+        return True
+    if isinstance(e, ast.IfExp):
+        return _cannot_be_marker(e.body) and _cannot_be_marker(e.orelse)
+    if isinstance(e, ast.BoolOp):
+        return all(_cannot_be_marker(v) for v in e.values)
+    if isinstance(e, ast.Call):
+        r = e.func
+        while isinstance(r, ast.Attribute):
+            r = r.value
+        return isinstance(r, ast.Name) and r.id in _EXTERNAL_ROOTS
+    return False
 
 
 def _is_sent_test(t, v):
@@ -2770,7 +2791,16 @@ def _sentinel_elim(stmts):
         on_sent, otherwise = (chk.body, chk.orelse) if is_ else (chk.orelse, chk.body)
 
         def mentions(e):
-            return any(isinstance(n, ast.Name) and n.id == S for n in ast.walk(e))
+            if any(isinstance(n, ast.Name) and n.id == S for n in ast.walk(e)):
+                return True
+            if S in _SENT_LEAKY:
+                # the value bound instead of the marker must be something that cannot be the marker itself
+                if isinstance(e, ast.expr):
+                    if not _cannot_be_marker(e):
+                        return True
+                elif any(isinstance(n, ast.Assign) and any(isinstance(t, ast.Name) and t.id == v for t in n.targets) and not _cannot_be_marker(n.value) for n in ast.walk(e)):
+                    return True
+            return False
 
         def is_sent_assign(s):
             return isinstance(s, ast.Assign) and len(s.targets) == 1 and isinstance(s.targets[0], ast.Name) and s.targets[0].id == v and isinstance(s.value, ast.Name) and s.value.id == S
@@ -3199,10 +3229,32 @@ def _sentinel_names(tree):
         elif isinstance(n, ast.keyword):
             pass
     texts, plain = set(), set()
+    # a marker that some function hands back (returned, or bound to a local that is returned): the result of a call may then be
+    # the marker, so `v = f(x) if c else S; if v is S` is NOT decided by c - such markers are left alone
+    handed_back = set()
+    for f in ast.walk(tree):
+        if not isinstance(f, (ast.FunctionDef, ast.AsyncFunctionDef, ast.Lambda)):
+            continue
+        body_nodes = list(ast.walk(f))
+        returned = [r.value for r in body_nodes if isinstance(r, ast.Return) and r.value is not None] + ([f.body] if isinstance(f, ast.Lambda) else [])
+        ret_names = {n.id for r in returned for n in ast.walk(r) if isinstance(n, ast.Name)}
+        for name in cands:
+            if name in ret_names:
+                handed_back.add(name)
+            for a in body_nodes:
+                if isinstance(a, ast.Assign) and any(isinstance(n, ast.Name) and n.id == name for n in ast.walk(a.value)) and any(isinstance(t, ast.Name) and t.id in ret_names for t in a.targets):
+                    handed_back.add(name)
+                if isinstance(a, ast.Attribute) and a.attr == name and any(a in list(ast.walk(r)) for r in returned):
+                    handed_back.add(name)
     for name, forms in cands.items():
         refs = [x for x in ast.walk(tree) if (isinstance(x, ast.Name) and x.id == name and isinstance(x.ctx, ast.Load) and name in forms) or (isinstance(x, ast.Attribute) and x.attr == name and isinstance(x.ctx, ast.Load))]
         # keyword arguments / positional arguments of calls hand the marker on: only a default value that the callee compares is accepted
         if all(id(r) in ok_ids for r in refs):
+            if name in handed_back:
+                if name in forms:
+                    plain.add(name)
+                    _SENT_LEAKY.add(name)
+                continue  # tests against attributes are not folded for such a marker
             texts |= forms
             if name in forms:
                 plain.add(name)
@@ -3231,6 +3283,8 @@ def _fold_constant_ifs(tree):
     """None is None -> True; <lambda / function of the module> is None -> False; if True: X -> X; if False: X else: Y -> Y;
     a if True else b -> a"""
     defs = {s.name for s in getattr(tree, "body", []) if isinstance(s, (ast.FunctionDef, ast.ClassDef))}
+    # local functions too: a name that is only ever bound by `def` (nowhere assigned, no parameter of that name) is never None
+    defs |= {s.name for s in ast.walk(tree) if isinstance(s, ast.FunctionDef)}
     rebound = {n.id for n in ast.walk(tree) if isinstance(n, ast.Name) and isinstance(n.ctx, (ast.Store, ast.Del))} | {a.arg for a in ast.walk(tree) if isinstance(a, ast.arg)}
 
     class T(ast.NodeTransformer):
@@ -3271,6 +3325,7 @@ def _fold_constant_ifs(tree):
 def canon_flow(tree, pattern=False):
     _SENTINELS.clear()
     _SENT_TEXTS.clear()
+    _SENT_LEAKY.clear()
     if isinstance(tree, ast.Module) and not pattern:
         texts, plain = _sentinel_names(tree)
         _SENTINELS.update(plain)
